@@ -260,7 +260,7 @@ def showQOut (op : QOp) : QOut → String
 def typedIndexOk (op : QOp) : M Unit :=
   match op with
   | .getTyped n | .hasTyped n | .insertTyped n _ | .removeTyped n =>
-    if n < knownKeys.length then .ok () else .error "BADREQ bad typed index"
+    if n < typedKeys.length then .ok () else .error "BADREQ bad typed index"
   | _ => .ok ()
 
 def parseQScript (script : String) (sep asep : String) : M (List QOp) :=
@@ -354,11 +354,11 @@ def parseBOp {τ : Type} (mk : String → M τ) (a : List String) : M (BOp τ) :
   | "-qs" => return .noQuals
   | "tq" =>
     let n ← natArg a 1
-    if n < knownKeys.length then return .typedQual n (← unh (← argAt a 2))
+    if n < typedKeys.length then return .typedQual n (← unh (← argAt a 2))
     else .error "BADREQ bad typed index"
   | "-tq" =>
     let n ← natArg a 1
-    if n < knownKeys.length then return .noTypedQual n else .error "BADREQ bad typed index"
+    if n < typedKeys.length then return .noTypedQual n else .error "BADREQ bad typed index"
   | "ck" => return .cksum (← parseCkScript (← argAt a 1) "+" ".")
   | "-ck" => return .noCksum
   | "pns" => return .pNs (← unh (← argAt a 1))
@@ -457,6 +457,21 @@ def valueOf {τ ε : Type} (io : ShapeIO τ ε) (mk : String → M τ) (src : St
       match ← liftRes (io.build b) with
       | .ok p => return some p
       | .error _ => return none
+  | "rb" :: rest =>
+    -- the built value's canonical string, parsed again
+    let b : GPurl τ := ⟨← mk (← argAt rest 0), { name := ← unh (← argAt rest 1) }⟩
+    let ops ← parseBScript mk (← argAt rest 2)
+    let (_, ob) ← runBuilder b ops
+    match ob with
+    | none => return none
+    | some b =>
+      match ← liftRes (io.build b) with
+      | .error _ => return none
+      | .ok p =>
+        let s ← displayM io.typeStr p
+        match ← liftRes (io.parse s) with
+        | .ok p2 => return some p2
+        | .error _ => return none
   | _ => .error s!"BADREQ bad value source {src}"
 
 
